@@ -342,4 +342,43 @@ def process (e : Eng) (ev : Event) (algoC : List CancelReq) (algoO : List OpenRe
   | .tradingState on => generateStage (updateTradingState e on) none algoC algoO refuse
   | .update u => generateStage (applyUpdate e u) none algoC algoO refuse
 
+/-! ### Netting of fills (engine-level projection of `PositionManager::update_from_trade`)
+
+The engine-level model carries `(side, quantity_abs)` of the open position only; the full position
+arithmetic is `Model/Position.lean` (C02). `netFill` is the projection of
+`PositionManager::update_from_trade` / `Position::update_from_trade` (position.rs:32-54, 227-328) on
+that pair, arm by arm: no position = enter; same side = increase; opposite side and larger open
+quantity = reduce; equal = close exactly; smaller = flip with the remainder. -/
+
+/-- signed open quantity: long positive, short negative, flat zero -/
+def signedQty : Option (Side × Rat) → Rat
+  | none => 0
+  | some (.buy, q) => q
+  | some (.sell, q) => -q
+
+def netFill (pos : Option (Side × Rat)) (side : Side) (q : Rat) : Option (Side × Rat) :=
+  match pos with
+  | none => some (side, q)
+  | some (ps, pq) =>
+    if ps = side then some (ps, pq + q)
+    else if pq > q then some (ps, pq - q)
+    else if pq = q then none
+    else some (side, q - pq)
+
+/-- The state update that an account trade `(side, q)` on instrument `i` amounts to in state `e`
+(`ev fill i side q` of the line protocol): the netted position, or flat. -/
+def fillUpdate (e : Eng) (i : Nat) (side : Side) (q : Rat) : Update :=
+  match (e.instruments[i]?).bind (·.position) with
+  | none => .position i side q
+  | some p =>
+    match netFill (some p) side q with
+    | some (s', q') => .position i s' q'
+    | none => .flat i
+
+/-- The account trade that takes the open position `pre` to `post` (side, quantity); `none` if the two
+are the same signed quantity. Inverse of `netFill` (`tradeBetween_netFill`). -/
+def tradeBetween (pre post : Option (Side × Rat)) : Option (Side × Rat) :=
+  let d := signedQty post - signedQty pre
+  if 0 < d then some (.buy, d) else if d < 0 then some (.sell, -d) else none
+
 end BarterModel.Engine
